@@ -133,6 +133,12 @@ func (env *vEnv) checkStateFk(sp *vSpecFk, cfg vStoreCfg, label string) {
 				verifrt.Assert(ok, label+": back-reference set lists every referrer")
 				verifrt.Assert(verifCountKeys(refs.Bucket) == want, label+": back-reference set lists only current referrers")
 			}
+			// the same through the store's own accessors
+			rel := env.dept.GetRelatedEntitiesIdList(tx, id, vFEmps)
+			verifrt.Assert(len(rel) == want, label+": GetRelatedEntitiesIdList lists exactly the referrers")
+			for e := range sp.emp {
+				verifrt.Assert(env.dept.IsEntityRelated(tx, id, vFEmps, vIds[e]) == (sp.emp[e] && sp.boss[e] == d), label+": IsEntityRelated agrees with the references")
+			}
 		}
 	})
 }
